@@ -102,7 +102,14 @@ FINDINGS = [
     ),
 ]
 FIXED = [
+    "fixed: property=C01 fc46805 a quoted string default containing a full stop ('a.b') was cut at the dot when read back from the prose, or the parser raised SyntaxError",
+    'fixed: property=C01 26237d2 a string default containing a double quote was emitted as "say "hi"" and the Google/NumPy parsers raised SyntaxError reading it back',
+    "fixed: property=C01 efa4dbd an empty-string default was emitted as a dangling 'Defaults to': the default was lost and the words stayed in the description",
     "fixed: property=C01 5a0ba55 negative int default ('Defaults to -5') came back as float -5.0 unless the type was exactly 'int'",
     "fixed: property=C01 f1ccb73 Google/NumPy return entry acquired an invented default (0/''/False) once any parameter had a default",
     "fixed: property=C01 0d88ac8 NumPy style + word_wrap: continuation lines of a long description were emitted unindented and parsed as extra parameters",
 ]
+
+# patterns of defects that have since been repaired in the repository (see FIXED): no longer known findings
+FIXED_IDS = ['C01-double-quote-in-string-default-not-escaped', 'C01-empty-string-default-leaves-prose', 'C01-empty-string-default-lost', 'C01-string-default-cut-at-full-stop']
+FINDINGS = [f for f in FINDINGS if f["id"] not in FIXED_IDS]
